@@ -115,7 +115,7 @@ pub trait DiffHook: Sized {
 }
 //@@ end
 
-//@@ item src/algorithms/hook.rs :: ^impl<'a, D: DiffHook \+ 'a> DiffHook for &'a mut D rw=R0
+//@@ item src/algorithms/hook.rs :: ^impl<'a, D: DiffHook \+ 'a> DiffHook for &'a mut D rw=R4i,R0
 impl<'a, D: DiffHook + 'a> DiffHook for &'a mut D {
     type Error = D::Error;
     /*@*/ open spec fn trace(&self) -> Seq<Ev> { (**self).trace() }
@@ -199,7 +199,7 @@ impl<D: DiffHook> NoFinishHook<D> {
 }
 //@@ end
 
-//@@ item src/algorithms/hook.rs :: ^impl<D: DiffHook> DiffHook for NoFinishHook<D> rw=R0
+//@@ item src/algorithms/hook.rs :: ^impl<D: DiffHook> DiffHook for NoFinishHook<D> rw=R4i,R0
 impl<D: DiffHook> DiffHook for NoFinishHook<D> {
     type Error = D::Error;
     /*@*/ open spec fn trace(&self) -> Seq<Ev> { self.inner().trace() }
